@@ -174,17 +174,56 @@ def mkval(ty, v):
     return str(v)
 
 
+def np_val(ty, v):
+    """the same value in numpy's representation (what a user computing attributes with numpy hands over)"""
+    import numpy as np
+    if ty == "Bool":
+        return np.bool_(v)
+    if ty == "Int":
+        return np.int64(v) if -2 ** 63 <= v < 2 ** 63 else v
+    if ty == "Float":
+        return np.float64(v)
+    return v      # complex and str values: mouette's attributes accept the python types only (numpy's are refused with ValueError)
+
+
+def idx_conv(el, rep):
+    """an element (tuple of vertex indices) in one of the representations callers use"""
+    import numpy as np
+    if rep == "np32":
+        return np.array(el, dtype=np.int32)
+    if rep == "np64":
+        return np.array(el, dtype=np.int64)
+    if rep == "npu8" and all(0 <= x < 256 for x in el):
+        return np.array(el, dtype=np.uint8)
+    if rep == "npscalars":
+        return [np.int64(x) for x in el]
+    if rep == "tuple":
+        return tuple(el)
+    return list(el)
+
+
 def build_mesh(spec):
     import mouette as M
+    import numpy as np
     from mouette.mesh.mesh import _instanciate_raw_mesh_data
     r = M.mesh.RawMeshData()
-    r.vertices += [M.Vec(b2f(v[0]), b2f(v[1]), b2f(v[2])) for v in spec["V"]]
+    vrep = spec.get("v_repr")
+    pts = [[b2f(v[0]), b2f(v[1]), b2f(v[2])] for v in spec["V"]]
+    if vrep == "list":
+        r.vertices += [list(p) for p in pts]
+    elif vrep == "nprow":
+        r.vertices += list(np.array(pts, dtype=np.float64).reshape((-1, 3)))
+    elif vrep == "int" and all(float(c).is_integer() and abs(c) < 2 ** 53 and not (c == 0 and str(c)[0] == "-") for p in pts for c in p):
+        r.vertices += [[int(c) for c in p] for p in pts]          # integer coordinates handed over as python ints
+    else:
+        r.vertices += [M.Vec(p[0], p[1], p[2]) for p in pts]
+    irep = spec.get("idx_repr")
     if spec.get("E"):
-        r.edges += [tuple(e) for e in spec["E"]]
+        r.edges += [idx_conv(e, irep) if irep else tuple(e) for e in spec["E"]]
     if spec.get("F"):
-        r.faces += [list(f) for f in spec["F"]]
+        r.faces += [idx_conv(f, irep) for f in spec["F"]]
     if spec.get("C"):
-        r.cells += [list(c) for c in spec["C"]]
+        r.cells += [idx_conv(c, irep) for c in spec["C"]]
     m = _instanciate_raw_mesh_data(r)
     # attributes are created on the prepared mesh (sizes are known then)
     conts = {"V": "vertices", "E": "edges", "F": "faces", "FC": "face_corners", "C": "cells", "CC": "cell_corners", "CF": "cell_faces"}
@@ -200,13 +239,16 @@ def build_mesh(spec):
             if a.get("default") is not None:
                 kw["default_value"] = mkval(a["type"], a["default"])
             at = cont.create_attribute(a["name"], PYTYPE[a["type"]], a["arity"], **kw)
+            mk = (lambda ty, x: np_val(ty, mkval(ty, x))) if a.get("np") else mkval
             for k, v in a["vals"]:
                 if k >= size:
                     continue
                 if a["arity"] == 1:
-                    at[k] = mkval(a["type"], v[0])
+                    at[k] = mk(a["type"], v[0])
+                elif a.get("np") and a["type"] in ("Int", "Float", "Bool"):
+                    at[k] = np.array([mkval(a["type"], x) for x in v])
                 else:
-                    at[k] = [mkval(a["type"], x) for x in v]
+                    at[k] = [mk(a["type"], x) for x in v]
     for k in spec.get("hard_set") or []:
         if hasattr(m, "edges") and m.edges.has_attribute("hard_edges") and k < len(m.edges):
             m.edges.get_attribute("hard_edges")[k] = True
@@ -234,7 +276,7 @@ def exc(ex):
 
 
 def do_load(path, fmt):
-    if fmt == "stl" and "--load-one" not in sys.argv:
+    if fmt == "stl" and "--load-one" not in sys.argv and "--child" not in sys.argv:
         # the third-party stl_reader aborts the whole process on some files (e.g. zero triangles): isolate it
         import subprocess
         try:
@@ -274,9 +316,204 @@ def read_file(path, fmt):
     return {"text": open(path, "r", newline="").read()}
 
 
+def save_form(M, m, path, form):
+    """the call forms of save(): optional argument omitted / given with its default, positionally or by keyword"""
+    form = form % 5
+    if form == 0:
+        M.mesh.save(m, path)
+    elif form == 1:
+        M.mesh.save(m, path, None)
+    elif form == 2:
+        M.mesh.save(m, path, ignore_elements=None)
+    elif form == 3:
+        M.mesh.save(mesh=m, filename=path, ignore_elements=set())
+    else:
+        M.mesh.save(m, filename=path)
+
+
+def load_form(M, path, form):
+    form = form % 6
+    if form == 0:
+        return M.mesh.load(path)
+    if form == 1:
+        return M.mesh.load(path, None)
+    if form == 2:
+        return M.mesh.load(path, None, False)
+    if form == 3:
+        return M.mesh.load(filename=path, dim=None, raw=False)
+    if form == 4:
+        return M.mesh.load(path, raw=False)
+    return M.mesh.load(path, dim=None)
+
+
+def same_obs(a, b):
+    a, b = dict(a), dict(b)
+    a.pop("adj", None)
+    b.pop("adj", None)
+    return a == b
+
+
+def warm(m):
+    """use the mesh the way a program does before saving it: connectivity queries, that may cache things on the mesh"""
+    con = getattr(m, "connectivity", None)
+    for name in ("vertex_to_vertices", "vertex_to_edges", "vertex_to_faces", "vertex_to_cells", "face_to_faces", "face_to_edges",
+                 "face_to_cells", "cell_to_cells", "edge_to_faces", "vertex_to_corners"):
+        f = getattr(con, name, None)
+        if f is not None:
+            try:
+                f(0)
+            except Exception:  # noqa
+                pass
+    for name in ("boundary_vertices", "interior_vertices", "boundary_edges", "interior_edges", "boundary_faces", "half_edges"):
+        try:
+            getattr(m, name, None)
+        except Exception:  # noqa
+            pass
+
+
+def run_session(job, root, idx):
+    """Several saves and loads in ONE process (objects of one session must not influence each other, every call must behave
+    like the first one, a failed call must leave no trace).  Returns save-job-like records for the two meshes and for the second
+    generation (the loaded mesh saved and loaded again), the classes obtained with an explicit `dim`, and named yes/no checks."""
+    import mouette as M
+    fmt = job["fmt"]
+    fm = job.get("forms") or [0] * 12
+    d = os.path.join(root, "s%d" % idx)
+    os.makedirs(d)
+    checks = []
+    out = {"checks": checks}
+
+    def P(name, upper=False):
+        return os.path.join(d, name + "." + (fmt.upper() if upper else fmt))
+    with Cfg(job.get("cfg")):
+        try:
+            A = build_mesh(job["meshes"][0])
+            B = build_mesh(job["meshes"][1])
+        except Exception as ex:  # noqa
+            return {"build_exc": exc(ex)}
+        if job.get("warm"):
+            warm(A)
+        oA0, oB0 = obs_mesh(A), obs_mesh(B)
+        pa, pb = P("a", upper=job.get("upper") == "first"), P("b")     # extensions are matched case-insensitively
+        save_form(M, A, pa, fm[0])
+        fA = read_file(pa, fmt)
+        oA_after_first = obs_mesh(A)
+        save_form(M, B, pb, fm[1])
+        fB = read_file(pb, fmt)
+        pa2 = P("a2", upper=job.get("upper") == "second")
+        save_form(M, A, pa2, fm[2])
+        checks.append(["saving the same mesh a second time (other call form%s) writes the same file"
+                       % (", upper-case extension" if job.get("upper") == "second" else ""), read_file(pa2, fmt) == fA])
+        checks.append(["the file of the first mesh is unchanged on disk after other saves", read_file(pa, fmt) == fA])
+        checks.append(["the saved meshes are unchanged by the saves", same_obs(obs_mesh(A), oA0) and same_obs(obs_mesh(B), oB0)])
+        # loads
+        ra = M.mesh.load(pa, raw=True)
+        o_ra = obs_raw(ra)
+        la = load_form(M, pa, fm[3])
+        o_la = obs_mesh(la)
+        rb = M.mesh.load(pb, None, True)
+        o_rb = obs_raw(rb)
+        lb = load_form(M, pb, fm[4])
+        o_lb = obs_mesh(lb)
+        checks.append(["the first loaded mesh (raw and finished) is unchanged by loading another file",
+                       obs_raw(ra) == o_ra and obs_mesh(la) == o_la])
+        la2 = load_form(M, pa2 if job.get("upper") == "second" else pa, fm[5])
+        checks.append(["loading the same file again gives the same mesh", obs_mesh(la2) == o_la])
+        ra2 = M.mesh.load(filename=pa, raw=True)
+        checks.append(["loading the same file again (raw) gives the same data", obs_raw(ra2) == o_ra])
+        checks.append(["two loads give distinct objects", la2 is not la and la2.vertices is not la.vertices and ra2 is not ra
+                       and ra2.vertices is not ra.vertices])
+        # edit one loaded object in place: the others, and later loads, do not see it
+        try:
+            if len(la2.vertices) > 0:
+                la2.vertices[0][0] = 12345.0
+            la2.vertices += [M.Vec(7., 8., 9.)]
+            ra2.vertices += [M.Vec(7., 8., 9.)]
+            la2.vertices.create_attribute("session_probe", int)[0] = 3
+        except Exception as ex:  # noqa
+            out["edit_exc"] = exc(ex)
+        checks.append(["editing one loaded mesh in place leaves the other objects loaded in the session as they were",
+                       obs_mesh(la) == o_la and obs_raw(ra) == o_ra and obs_mesh(lb) == o_lb and obs_raw(rb) == o_rb])
+        la3 = load_form(M, pa, fm[6])
+        checks.append(["a load after another loaded mesh was edited gives the file's content", obs_mesh(la3) == o_la])
+        # calls that fail, then the same calls again
+        failed = []
+        bad = os.path.join(d, "broken." + fmt)
+        open(bad, "wb").write(b"OFF\n3 1 0\n0 0 0\n1 0 zero\nVertices\n2\n1.0 2.0 3.0 0\nv 1 2 3\nf 1 2 9\n[HEAD\n\"x\"\n3 2 three\n" if job.get("forms", [0])[0] % 2
+                              else b"\x00\xff this is not a mesh file\n1 2 three\n[HEAD\n")
+        for what, call in (("load of a malformed file", lambda: M.mesh.load(bad)),
+                           ("load of a missing file", lambda: M.mesh.load(os.path.join(d, "missing." + fmt))),
+                           ("save under an unknown extension", lambda: M.mesh.save(A, os.path.join(d, "a.unknown_ext"))),
+                           ("load under an unknown extension", lambda: M.mesh.load(os.path.join(d, "a.unknown_ext"))),
+                           ("save into a missing directory", lambda: M.mesh.save(A, os.path.join(d, "no", "such", "dir", "a." + fmt)))):
+            if fmt == "stl" and what == "load of a malformed file":
+                continue    # the third-party reader aborts the process on some byte strings
+            try:
+                call()
+                failed.append([what, None])
+            except Timeout:
+                raise
+            except BaseException as ex:  # noqa
+                failed.append([what, type(ex).__name__])
+        out["failed_calls"] = failed
+        pa3 = P("a3")
+        save_form(M, A, pa3, fm[7])
+        checks.append(["after calls that raised, saving the mesh writes the same file as before", read_file(pa3, fmt) == fA])
+        la4 = load_form(M, pa, fm[8])
+        checks.append(["after calls that raised, loading the file gives the same mesh as before", obs_mesh(la4) == o_la])
+        checks.append(["after calls that raised, the saved mesh is as it was", same_obs(obs_mesh(A), oA0)])
+        # explicit dim
+        dims = []
+        for dd in (0, 1, 2, 3):
+            try:
+                x = M.mesh.load(pa, dd) if dd % 2 else M.mesh.load(pa, dim=dd)
+                ox = obs_mesh(x)
+                dims.append([dd, type(x).__name__, all((ox.get(k) or []) == (o_la.get(k) or []) for k in ("V", "F", "C"))])
+            except Exception as ex:  # noqa
+                dims.append([dd, "EXC " + type(ex).__name__, False])
+        out["dims"] = dims
+        # records judged by the save/load oracle
+        out["A"] = {"mesh_in": oA0, "file": fA, "unchanged": same_obs(oA_after_first, oA0), "adj": oA_after_first.get("adj"),
+                    "load": {"raw": o_ra, "class": type(la).__name__, "loaded": o_la}}
+        out["B"] = {"mesh_in": oB0, "file": fB, "unchanged": True, "adj": obs_mesh(B).get("adj"),
+                    "load": {"raw": o_rb, "class": type(lb).__name__, "loaded": o_lb}}
+        # second generation: the loaded mesh saved and loaded again
+        pc = P("c")
+        try:
+            save_form(M, la, pc, fm[9])
+            fC = read_file(pc, fmt)
+            o_la_after = obs_mesh(la)
+            rc = M.mesh.load(pc, raw=True)
+            lc = load_form(M, pc, fm[10])
+            out["second"] = {"mesh_in": o_la, "file": fC, "unchanged": same_obs(o_la_after, o_la), "adj": o_la_after.get("adj"),
+                             "load": {"raw": obs_raw(rc), "class": type(lc).__name__, "loaded": obs_mesh(lc)}}
+            checks.append(["the loaded mesh saved again gives the same file (the format's vocabulary is a fixed point)", fC == fA]
+                          + (["soft"] if fmt in ("off", "geogram_ascii") else []))   # off: the header counts the edges, which the format does not carry;
+            # geogram: the importer's own attributes are written back as user attributes (reserved-name finding)
+        except Timeout:
+            raise
+        except Exception as ex:  # noqa
+            out["second"] = {"mesh_in": o_la, "save_exc": exc(ex), "unchanged": True}
+    return out
+
+
 def run_job(job, root, idx):
     import mouette as M
     k = job["k"]
+    if k == "session":
+        if job["fmt"] == "stl" and "--child" not in sys.argv:
+            # the third-party stl_reader can abort the process: the whole session runs in one child process
+            import subprocess
+            try:
+                p = subprocess.run([sys.executable, "-m", "vf.impl.c04_driver", "--child"], input=json.dumps({"jobs": [job], "job_timeout": 60}),
+                                   stdout=subprocess.PIPE, stderr=subprocess.STDOUT, timeout=90, text=True)
+                for line in reversed(p.stdout.splitlines()):
+                    if line.startswith("@@JSON "):
+                        return json.loads(line[7:])["res"][0]
+                return {"driver_exc": {"exc": "ProcessAbort", "msg": p.stdout[-200:]}}
+            except subprocess.TimeoutExpired:
+                return {"driver_exc": {"exc": "Timeout", "msg": "session child"}}
+        return run_session(job, root, idx)
     if k == "floats":
         import numpy as np
         bad = []
@@ -309,7 +546,13 @@ def run_job(job, root, idx):
                 if ign is None:
                     M.mesh.save(m, path)
                 else:
-                    M.mesh.save(m, path, ignore_elements=set(ign))
+                    form = job.get("ignore_form") or "set"
+                    coll = {"set": set, "frozenset": frozenset, "list": list, "tuple": tuple, "dict": lambda x: dict.fromkeys(x, 1),
+                            "keys": lambda x: dict.fromkeys(x, 1).keys()}[form](ign)
+                    if job.get("ignore_positional"):
+                        M.mesh.save(m, path, coll)
+                    else:
+                        M.mesh.save(m, path, ignore_elements=coll)
                 out["file"] = read_file(path, fmt)
             except Timeout:
                 out["save_exc"] = {"exc": "Timeout", "msg": ""}
